@@ -35,7 +35,7 @@ CASE_TIMEOUT = {"quick": 400, "thorough": 1500}
 E = 1e-12
 
 
-def init_spec(crop, co2=None):
+def init_spec(crop, co2=None, ref=None):
     sp = {"start": "2000/06/01", "end": "2002/05/30", "off_season": False,
           "weather": {"kind": "file", "name": "hyderabad_climate.txt"}, "soil": {"type": "Loam", "kw": {}},
           "crop": {"name": crop, "planting": "06/01", "harvest": None, "kw": {}},
@@ -43,6 +43,8 @@ def init_spec(crop, co2=None):
           "irr": {"method": 0, "kw": {}, "schedule": None}}
     if co2 is not None:
         sp["co2"] = {"constant": float(co2)}
+        if ref is not None:
+            sp["co2"]["ref"] = float(ref)
     return sp
 
 
@@ -59,9 +61,9 @@ def cases(tier, seed):
     return out
 
 
-def initialised_crop(crop, co2=None):
+def initialised_crop(crop, co2=None, ref=None):
     common.use_repo()
-    sp = init_spec(crop, co2)
+    sp = init_spec(crop, co2, ref)
     m = S.make_model(sp)
     I.watchdog_setup()
     I.watchdog_arm(400_000)
@@ -188,12 +190,12 @@ def lattice(crop, acc, fine):
     cov["crops_lattice"] += 1
 
 
-def season_start_fco2(crop, co2):
+def season_start_fco2(crop, co2, ref=None):
     """fCO2 as set by the *season reset* (the path every season after the first, and a first
     season planted after the start date, goes through): start two days before planting and step
     into the season."""
     common.use_repo()
-    sp = init_spec(crop, co2)
+    sp = init_spec(crop, co2, ref)
     sp["start"] = "2000/05/30"
     m = S.make_model(sp)
     I.watchdog_setup()
@@ -233,6 +235,20 @@ def co2_sweep(crop, step, acc):
     if abs(a[worst] - b[worst]) > 1e-12:
         acc.add("co2-paths-disagree", f"{crop}: at {worst} ppm the factor is {a[worst]!r} when set at initialisation but "
                 f"{b[worst]!r} when set by the season reset", dict(crop=crop, ppm=worst))
+    # a reference concentration other than the default: the factor is 1 there, not at 369.41 ppm
+    for ref2 in (330.0, 420.0):
+        for path, fn in (("initialisation", lambda c: float(initialised_crop(crop, co2=c, ref=ref2)[0].fCO2)),
+                         ("season reset", lambda c: season_start_fco2(crop, c, ref=ref2))):
+            v = {c: fn(c) for c in (ref2 - 40.0, ref2, ref2 + 60.0, 700.0)}
+            cov["co2_initialisations"] += 4
+            cov["co2_custom_reference_checks"] += 1
+            cov["executions"] += 4
+            if abs(v[ref2] - 1.0) > 1e-12:
+                acc.add("co2-reference", f"{crop}: with the reference concentration set to {ref2} ppm the CO2 productivity "
+                        f"factor at {ref2} ppm is {v[ref2]!r} ({path} path)", dict(crop=crop, path=path, ref=ref2))
+            if not (v[ref2 - 40.0] <= v[ref2] + 1e-12 and v[ref2] <= v[ref2 + 60.0] + 1e-12 and v[ref2 + 60.0] <= v[700.0] + 1e-12):
+                acc.add("co2-monotone", f"{crop}: CO2 productivity factor not non-decreasing around the reference {ref2} ppm "
+                        f"({path} path): {v}", dict(crop=crop, path=path, ref=ref2))
     cov["crops_co2"] += 1
     return {"fCO2_250": a[concs[0]], "fCO2_2500": a[concs[-1]]}
 
